@@ -264,3 +264,28 @@ for (name, fl), compound in itertools.product(FLAGS.items(), (False, True)):
                  clause_props={"fresh-result": ["C20"], "names-of-contained-members": ["C18"], "raises-nothing": ["C18"],
                                "names-cover-the-value": ["C18", "C01"], "modifies-nothing": ["C20"]},
                  notes=[f"flag {name} value {v} allow_compound={compound}"])
+
+
+# ---------------------------------------------------------------------------------------------- enum by value type
+# "The loader will call the loader of `tp` and pass it to the enum constructor."  The value loader is a concrete stand-in written here
+# (strict int / strict str: accepts exactly that class, raises TypeLoadError otherwise — an instance of LD); the datum ranges over D.
+def _strict_value_loader(cls):
+    def value_loader(d):
+        from adaptix.load_error import TypeLoadError
+        if type(d) is cls:
+            return d
+        raise TypeLoadError(cls, d)
+    return value_loader
+
+
+for name, en, vcls in [("E1-int", E1, int), ("E1-str", E1, str), ("EStr", EStr, str), ("EInt", EInt, int), ("EAlias", EAlias, int)]:
+    contract(F, "EnumValueProvider._make_loader", name=f"{F}:EnumValueProvider._make_loader[{name}]",
+             props=["C18", "C04", "C02", "C05", "C20", "C01"],
+             via=Via("EnumValueProvider._make_loader", {name: (lambda m, vcls=vcls: m.EnumValueProvider(vcls))},
+                     kwargs={"enum": ("const", en), "value_loader": ("const", _strict_value_loader(vcls))}, any_closure=True),
+             params={"data": "D"}, prefer_shadow=True, clause_props=CP, consts={"EN": en, "VC": vcls, "eq": _eq},
+             post={"raises-closed": "implies(raised, isinstance(exc, LoadError))",
+                   # exactly the loaded values that are the value of a member
+                   "accept-iff": "returned == py(lambda d: type(d) is VC and any(type(m.value) is VC and eq(d, m.value) for m in EN), data)",
+                   "value": "implies(returned, py(lambda d, r: type(r) is EN and eq(r.value, d), data, result))"},
+             cover=["returned", "raised"], notes=[f"enum class {name}, value loader: strict {vcls.__name__}"])
